@@ -237,6 +237,12 @@ def c20_programs(tier, seed, rnd):
             if name == "degen":
                 p["smallgrid"] = 1          # many shapes, few settings (crashes on degenerate shapes do not depend on the version)
             progs.append(p)
+    # programs with subroutines (recursion, by-reference parameters, routine-private variables - some never initialised)
+    rp, rres = c02_programs(tier, seed, rnd, caps=(300, 80) if q else (6000, 4000))
+    for p in rp:
+        p["smallgrid"] = 2
+    progs += rp
+    results += rres
     progs += big_programs(tier)
     return progs, results
 
@@ -267,6 +273,10 @@ def c17_programs(tier, seed, rnd):
     # the same programs with explicitly requested slot ids for every variable (every third recipe)
     import outcomes
     progs += [outcomes.with_requested_ids(p) for p in progs[::3]]
+    # routines with private variables that may be read before they are written on some path
+    rp, rres = c02_programs(tier, seed, rnd, caps=(300, 250) if q else (4000, 4000))
+    progs += rp
+    results += rres
     return progs, results
 
 
